@@ -279,7 +279,7 @@ func runC11(c *h.Ctx) {
 	g.C.Datetime = true
 	g.C.KeyValue = false // ids are address-derived; two evaluations of p would not be comparable
 	dc := gen.DefaultDocCfg()
-	n := c.PerShard(c.N(25000, 600000))
+	n := c.PerShard(c.N(100000, 1000000))
 	for i := 0; i < n; i++ {
 		lax := r.IntN(2) == 0
 		p := g.Pred(2, false, false)
